@@ -4,6 +4,8 @@ Scenario runner + oracles for the cluster-level properties (C03..C07).
 A scenario is {'names', 'phens', 'cache', 'periods', 'ops'}; ops are strings:
   in <i> <d>      datum d enters instance i (engine runs to quiescence)
   pass <i>        one iteration of i's outgoing loop (real `_tcp_outgoing` body)
+  passi <i> <point> <src>   the same, with i's incoming thread handling the next message from <src> at the boundary
+                  <point> of the outgoing thread (lock = after the decision phase, send:<peer> = during that send)
   del <i> <j>     deliver the oldest in-flight message on link i->j (order per pair preserved)
   dup <i> <j>     the next send on link i->j is delivered but reported to the sender as failed (=> re-delivery)
   down <i> <j> / up <i> <j>   link fault / repair
@@ -128,9 +130,12 @@ class Runner:
                 c.input(w[1], int(w[2]))
         elif k == 'pass':
             if c.insts[w[1]].alive:
-                if 'before_pass' in self.hooks:
-                    self.hooks['before_pass'](self, w[1])
                 c.pass_(w[1])
+        elif k == 'passi':
+            # passi <i> <point> <src>: i's outgoing pass with the incoming handler of i delivering the next message
+            # from <src> at the given atomic-step boundary (point = lock | send:<peer>)
+            if c.insts[w[1]].alive:
+                c.insts[w[1]].outgoing_pass({w[2]: (lambda: c.deliver(w[3], w[1]))})
         elif k == 'del':
             c.deliver(w[1], w[2])
         elif k == 'dup':
